@@ -77,7 +77,7 @@ PROPS["C02"] = {
     "level": "exploration",
     "technique": "model-based stateful PBT (rapid state machine over all 22 procedures) against an in-memory reference file system; direct calls and the real XDR/RPC path",
     "level_text": "rapid state machine with one action per procedure (unsupported ones and exclusive CREATE included), arguments drawn model-aware (live/dead/forged/garbage handles, colliding/long/dot names, offsets dense at block and indirection boundaries up to and beyond the advertised maximum, counts 0..wtmax+), clean restarts; every reply is compared with the reference (success/failure, handle, type, size, file id, data, link target, listing, committed level, verifier) and the whole tree is compared every 16 steps, at the end, and after a final cold restart.",
-    "level_note": "Sampled sequences (shrinks to minimal on failure). Space never binds by construction (budget). Error codes are not compared except NOTSUPP/STALE where the property says so. Cross-directory renames of directories are excluded (known findings KF2/KF3) and counted.",
+    "level_note": "Sampled sequences (shrinks to minimal on failure). Space never binds by construction (budget). Error codes are not compared except NOTSUPP/STALE where the property says so. Renames of directories to other parents, over empty directories and into their own subtree (refused) are generated like any other rename (the former known findings KF2 and KF3 were repaired).",
     "rule": ("unit = one generated operation sequence (about 30 RPCs on average, more in thorough) on a fresh 14000-block disk, with Unstable on/off and direct/RPC adapter drawn per case. "
              "Non-trivial: >=1 successful mutation and at least one of {clean restart inside the sequence, a file growing past the direct blocks, shrink-then-grow of one file, a failed request followed by successful ones, RPC adapter}. distinct = FNV hash of the full history."),
     "assumptions": COMMON_ASSUMPTIONS,
@@ -92,13 +92,15 @@ PROPS["C02"] = {
 PROPS["C04"] = {
     "level": "fault_enumeration",
     "technique": "generated histories and crash images (rapid + crash-point enumeration) judged by a structural checker (fsck) over the logical disk, built on the repository's own decoders",
-    "level_text": "fsck (pointers in the data region, single ownership incl. indirect blocks and half-freed inodes, owned => marked, inode bitmap <=> kind, tree with exactly one name per live object, unique well-formed names, '.'/'..', sizes vs mapped blocks, allocators = bitmaps) runs (a) at every 8th step and at the end of generated sequential histories with deep trees, renames, removes, truncations, clean restarts and shrinker-interrupting stops, (b) on the recovered logical disk of every explored crash image of generated programs that create, truncate and remove files large enough for multi-transaction frees, (c) on nearly-full disks, (d) on disks with two and three block-bitmap blocks (33468-66436 blocks): files are written until allocation is well inside the later bitmap blocks, some are removed, the server restarts (cleanly or with the shrinker interrupted; the allocators are rebuilt from all bitmap blocks), more files are written; fsck (exact, allocators = bitmaps) and the bytes of every file are checked after every round. (e) at the quiescent point after each enumerated two-client case of the C03 check (one request held at each of its first lock/commit points while another client completes one or two conflicting requests on the same names, children numbered below their directory, half-freed start states, files used through their handles while their names change; quick: a seed-dependent quarter, thorough: all).",
+    "level_text": "fsck (pointers in the data region, single ownership incl. indirect blocks and half-freed inodes, owned => marked, inode bitmap <=> kind, tree with exactly one name per live object, unique well-formed names, '.'/'..', sizes vs mapped blocks, allocators = bitmaps) runs (a) at every 8th step and at the end of generated sequential histories with deep trees, renames, removes, truncations, clean restarts and shrinker-interrupting stops, (b) on the recovered logical disk of every explored crash image of generated programs that create, truncate and remove files large enough for multi-transaction frees, (c) on nearly-full disks, (d) on disks with two and three block-bitmap blocks (33468-66436 blocks): files are written until allocation is well inside the later bitmap blocks, some are removed, the server restarts (cleanly or with the shrinker interrupted; the allocators are rebuilt from all bitmap blocks), more files are written; fsck (exact, allocators = bitmaps) and the bytes of every file are checked after every round. (e) at the quiescent point after each enumerated two-client case of the C03 check (one request held at each of its first lock/commit points while another client completes one or two conflicting requests on the same names, children numbered below their directory, half-freed start states, files used through their handles while their names change; quick: a seed-dependent quarter, thorough: all). (f) two directories that two clients try to move into each other (or into directories inside each other) at the same time, client 0 held at each of its first fourteen lock/commit/abort points: exactly one of the two renames succeeds and the directories still form a tree (60 enumerated cases). Renames of directories to other parents, over empty directories and - to be refused - into their own subtree are part of all sequential, nearly-full-disk and crash programs.",
     "level_note": "Sampled histories; crash points enumerated per trace (quick <=250, thorough all). The checker reads through the server's own journal object; it trusts super/inode/dirent decoders of the repository (format changes made consistently raise no alarm). Reply mismatches are C02's subject and only cut the case short here.",
     "rule": ("unit = one fsck run (quiescent state of a sequential history, or recovered crash image). Non-trivial: the state has >=3 directories and >=1 indirect block, or the crash image contains a half-freed inode. "
              "distinct = FNV hash of the history (sequential) or of (program, crash point, variant)."),
     "assumptions": CRASH_ASSUMPTIONS,
-    "required_classes": ["enumerated_two_client_cases_checked", "big_disk_case_allocating_beyond_the_first_bitmap_block", "quiescent_states_checked", "crash_images", "crash_images_with_half_freed_inode", "programs_ending_with_the_free_of_a_dense_file"],
+    "required_classes": ["pairs_of_directories_moved_into_each_other", "enumerated_two_client_cases_checked", "big_disk_case_allocating_beyond_the_first_bitmap_block", "quiescent_states_checked", "crash_images", "crash_images_with_half_freed_inode", "programs_ending_with_the_free_of_a_dense_file"],
     "units": [
+        {"test": "^TestRegressC04$", "norapid": True, "quick": {"shards": 1}, "thorough": {"shards": 1}},
+        {"test": "^TestC04RenameCycle$", "norapid": True, "quick": {"shards": 6}, "thorough": {"shards": 6}},
         {"test": "^TestC04Seq$", "quick": {"checks": 60, "shards": 4}, "thorough": {"checks": 800, "shards": 8, "steps": 60}},
         {"test": "^TestC04BigDisk$", "quick": {"checks": 4, "shards": 4}, "thorough": {"checks": 60, "shards": 8}},
         {"test": "^TestC04Full$", "quick": {"checks": 40, "shards": 4, "steps": 40}, "thorough": {"checks": 500, "shards": 8, "steps": 60}},
@@ -291,7 +293,7 @@ PROPS["C16"] = {
 
 CONC_ASSUMPTIONS = COMMON_ASSUMPTIONS + [
     "goroutine schedules are sampled (yields injected at lock-acquisition and commit points from a drawn seed widen them); a failure is reported with the recorded history, which porcupine re-judges deterministically",
-    "known findings excluded by construction and counted: READDIRPLUS in concurrent programs (KF1), moving a directory to another directory (KF2/KF3)",
+    "known findings excluded by construction and counted: READDIRPLUS of directories other than the root next to requests that lock those directories (KF1); only one file's attributes per listing are judged (KF4)",
 ]
 
 PROPS["C03"] = {
